@@ -207,6 +207,18 @@ func truncFix(kind string, m []byte, k int) []byte {
 	return out
 }
 
+// fixLen3 rewrites the 3-byte handshake length so that it agrees with the (cut) message: the cut is then only
+// visible to the checks behind the outer length test
+func fixLen3(m []byte) []byte {
+	if len(m) < 4 {
+		return m
+	}
+	out := append([]byte(nil), m...)
+	n := len(m) - 4
+	out[1], out[2], out[3] = byte(n>>16), byte(n>>8), byte(n)
+	return out
+}
+
 // mutateK is mutate with half of the truncations placed on a structural boundary of the message
 func mutateK(r *vh.Rand, kind string, m []byte) []byte {
 	if r.Chance(1, 2) {
@@ -225,8 +237,14 @@ func mutateK(r *vh.Rand, kind string, m []byte) []byte {
 					return out
 				}
 			}
+			if r.Bool() {
+				return fixLen3(m[:k])
+			}
 			return append([]byte(nil), m[:k]...)
 		}
+	}
+	if r.Chance(1, 4) && len(m) > 4 {
+		return fixLen3(m[:r.Range(4, len(m))])
 	}
 	return mutate(r, m)
 }
@@ -672,6 +690,9 @@ func main() {
 			}
 			for i := 0; i <= len(m); i++ {
 				emit("um " + k + " " + vh.Hex(m[:i]))
+				if i >= 4 && i < len(m) {
+					emit("um " + k + " " + vh.Hex(fixLen3(m[:i]))) // cut, outer length repaired
+				}
 			}
 		}
 		// hello messages with a 32-byte session id and every extension: every prefix
